@@ -142,9 +142,31 @@ func init() {
 			if cfg.Var == "full" {
 				pb = -1
 			}
+			type job struct {
+				sc []string
+				tc [2]int
+			}
+			var jobs []job
 			for _, sc := range scripts {
+				for _, tc := range [][2]int{{1, 1}, {1, 2}, {2, 1}} {
+					jobs = append(jobs, job{sc, tc})
+				}
+			}
+			// directed longer scripts: triggers in several consecutive periods, a consumer that keeps asking
+			for _, sc := range [][]string{
+				{"call", "call", "adv4", "call", "adv4"},
+				{"call", "adv2", "call", "adv4", "adv2", "call", "adv5"},
+				{"call", "call", "adv5", "call", "call", "adv5"},
+				{"call", "adv5", "call", "adv2", "call", "adv4", "cancel"},
+				{"call", "adv2", "call", "adv2", "adv4", "call"},
+				{"adv5", "call", "adv4", "call", "adv4", "call"},
+			} {
+				jobs = append(jobs, job{sc, [2]int{1, 3}}, job{sc, [2]int{2, 2}})
+			}
+			for _, jb := range jobs {
+				sc := jb.sc
 				for trailing := 0; trailing <= 1; trailing++ {
-					for _, tc := range [][2]int{{1, 1}, {1, 2}, {2, 1}} {
+					for _, tc := range [][2]int{jb.tc} {
 						pi++
 						if (pi-1)%cfg.Shards != cfg.Shard {
 							continue
